@@ -594,12 +594,12 @@ def shrink_prog_failure(f):
 
 def stage_programs():
     rng = ck.rng
-    nprog = 300 if quick else 3000
+    nprog = 600 if quick else 4000
     per = 6
     progs = []
     stats = {}
     for k in range(nprog):
-        P = c03_gen.gen_c03_program(rng, f"c{k}", opts=dict(jmpi=False), many_doubles=(k % 3 == 0))
+        P = c03_gen.gen_c03_program(rng, f"c{k}", opts=dict(jmpi=(k % 2 == 1)), many_doubles=(k % 3 == 0))
         calls = c03_gen.calls_for(P, mirgen.ARGSETS if (not quick or k % 2 == 0) else mirgen.ARGSETS[:3], rng)
         plans = [c03_gen.plan_from(calls), c03_gen.plan_from(c03_gen.permute(rng, calls))]
         if not quick:
@@ -844,7 +844,7 @@ def main():
         "machine code of wrappers, shims, bb thunks/stubs and generated functions is executed, not modelled",
         "_MIR_publish_code/_MIR_change_code write the bytes they are given (C17); allocator answers are inputs of the model's events",
         "reference for program behaviour is MIR_interp (engine `interp`); failures that reproduce with eager generation alone are attributed to C01",
-        "programs using laddr/jmpi are not generated (open generator defects under C01); property insns are excluded by the property",
+        "half of the programs use laddr/jmpi in their entry functions, all use a jmpi through lref data; property insns are excluded by the property",
         "engines are built as shipped (-DNDEBUG); the clobbering allocator leaves xmm8-15 alone except in the runs marked C03_TRASH=all "
         "(see known finding C03:bb-wrapper-xmm8-15)",
     ]
